@@ -219,7 +219,9 @@ class MapGen:
         chunks = [(b"VER ", struct.pack("<H", 205)), (b"STR ", str_payload), (b"MRGN", mrgn), (b"TRIG", trig)]
         chunks.append((b"UNIS", units(100)) if rng.random() < 0.5 else (b"UNIx", units(130)))
         opt = [(b"UPRP", uprp), (b"UPUS", upus), (b"SWNM", swnm)]
-        if form == "editor":
+        if variant == "bare":
+            pass        # a map that has none of the optional tables
+        elif form == "editor":
             chunks += opt
         else:
             chunks += [c for c in opt if rng.random() < 0.7]
